@@ -287,6 +287,7 @@ func run[K, V any](opsField string, zero bool, mk func() omap.Map[K, V], kc code
 				items = append(items, "?")
 				continue
 			}
+			curOp = op[0]
 			if macro != nil { // B, D, Q: thousands of Sets / Deletes / lookups and iterator moves, one item each
 				if it, handled, ed := macro(h, op); handled {
 					if ed {
@@ -426,8 +427,41 @@ func run[K, V any](opsField string, zero bool, mk func() omap.Map[K, V], kc code
 	return strings.Join(items, ";")
 }
 
+// curOp: the letter of the operation run is executing (read by the re-entrant comparator q)
+var curOp byte
+
+// reentrant wraps a comparator of a Map[int,int] into one that, when it is called from a read-only
+// operation of the map, first reads the very map it belongs to (round 5: read-only re-entrancy)
+func reentrant(base func(a, b int) int, self *omap.Map[int, int]) func(a, b int) int {
+	depth, calls := 0, 0
+	return func(a, b int) int {
+		if depth == 0 && strings.IndexByte("glktFLSnpeNP", curOp) >= 0 {
+			depth++
+			calls++
+			switch calls % 5 {
+			case 0:
+				self.Len()
+			case 1:
+				self.GetOK(b)
+			case 2:
+				self.Seek(a).Next()
+			case 3:
+				self.Keys()
+			default:
+				self.First()
+				self.Last().Prev()
+			}
+			depth--
+		}
+		return base(a, b)
+	}
+}
+
 func exec(in string) string {
 	f := strings.Fields(in)
+	if len(f) >= 4 && f[0] == "K" {
+		return execTyped(f)
+	}
 	if len(f) < 3 || (f[0] != "M" && f[0] != "T") {
 		return "?"
 	}
@@ -439,6 +473,11 @@ func exec(in string) string {
 	if f[0] == "M" {
 		if f[1] == "n" {
 			return run(opsField, zero, func() omap.Map[int, int] { return omap.New[int, int]() }, intCodec, intCodec, intMacro(nil))
+		}
+		if strings.HasPrefix(f[1], "q") && len(f[1]) > 1 {
+			var self omap.Map[int, int]
+			cf := reentrant(cmpFor(f[1][1:]), &self)
+			return run(opsField, zero, func() omap.Map[int, int] { self = omap.NewFunc[int, int](cf); return self }, intCodec, intCodec, intMacro(nil))
 		}
 		lg := new(cmpLog) // the node keys the comparator is called with (the real-depth orders of D read it)
 		base := cmpFor(f[1])
@@ -901,5 +940,8 @@ func main() {
 			x.memoLines()
 			// 8. round 4: keys and values made of blanks, brackets, colons (values.go)
 			x.valueLines()
+			// 9. round 5: omap.New at float, small-int, extreme-int and named string key types, every
+			// constructor, other value kinds; comparators that read their own map (typed.go)
+			x.typedLines()
 		})
 }
